@@ -68,7 +68,7 @@ def main():
                 for m in ("cmd", "estargz"):
                     if p == m or p.startswith(m + "/"):
                         mr = os.path.join(wt, m); rel = p[len(m):].lstrip("/") or "."
-                rc, out = sh("go1.26 test -count=1 -vet=off ./%s/..." % rel, cwd=mr)
+                rc, out = sh("go1.26 test -count=1 -vet=off -timeout 90m ./%s/..." % rel, cwd=mr)
                 tails[p] = out[-500:]
                 ok = ok and rc == 0
             res["existing_tests_pass_with_patch"] = ok
